@@ -77,21 +77,23 @@ class Anchors:
             adt = self.facts.adt(path)
             if adt is None and not path.startswith("crate::pubsub_proto"):
                 raise CheckBroken("anchor type %s (%s) not found in the crate" % (key, path))
-            if adt is not None:
-                have = set()
-                for v in adt["variants"]:
-                    for f in v["fields"]:
-                        have.add(f["name"])
-                for f in FIELDS.get(key, []):
-                    if f not in have:
-                        raise CheckBroken("anchor field %s.%s not found" % (key, f))
             self.checked.add(key)
         return path
 
-    def cell(self, key, field):
+    def has_field(self, key, field):
+        adt = self.facts.adt(self.ty(key))
+        return adt is not None and any(f["name"] == field for v in adt["variants"] for f in v["fields"])
+
+    def cell(self, key, field, optional=False):
+        """(ADT path, field).  Only the requested field is verified, so that removing one field does not disable
+        rules that never look at it.  optional=True returns None instead of raising when the field is gone."""
         path = self.ty(key)
         if field not in FIELDS.get(key, []):
             raise CheckBroken("field %s.%s is not an anchored field" % (key, field))
+        if not self.has_field(key, field):
+            if optional:
+                return None
+            raise CheckBroken("anchor field %s.%s not found" % (key, field))
         return (path, field)
 
     def field_ty(self, key, field):
